@@ -969,6 +969,73 @@ def class_program(cfg=None):
     return strat()
 
 
+class GI(GK):
+    """Inline cache stress (C13): the class scenario plus classes created at run time inside a factory
+    function (fresh class objects with equal or different layouts), dropped, garbage in between, and
+    the shared call sites revisited."""
+
+    def factory(self):
+        out = []
+        fname = self.fresh("mkclass")
+        # two layouts: field order differs, one variant shadows the method with a field
+        body = [
+            ("class", "L", None, ("init", ["v"], [("expr", ("assign", ("prop", ("self",), "f1"), ("var", "v"))),
+                                                   ("expr", ("assign", ("prop", ("self",), "f2"), ("bin", "+", ("var", "v"), ("num", 1.0))))]),
+             [("m1", [], [("implicit", ("bin", "+", ("prop", ("self",), "f1"), ("var", "k")))]),
+              ("m3", [], [("implicit", ("prop", ("self",), "f2"))])], []),
+            ("class", "M", None, ("init", ["v"], [("expr", ("assign", ("prop", ("self",), "f2"), ("bin", "*", ("var", "v"), ("num", 2.0)))),
+                                                   ("expr", ("assign", ("prop", ("self",), "f1"), ("var", "v")))]),
+             [("m1", [], [("implicit", ("bin", "-", ("prop", ("self",), "f1"), ("var", "k")))]),
+              ("m3", [], [("implicit", ("num", 77.0))])], []),
+            ("class", "N", "L", ("init", ["v"], [("expr", ("call", ("super", "init"), [("var", "v")])),
+                                                  ("expr", ("assign", ("prop", ("self",), "m3"), ("lambda", [], ("expr", ("num", 55.0)))))]),
+             [("m1", [], [("implicit", ("bin", "*", ("call", ("super", "m1"), []), ("num", 10.0)))])], []),
+            ("if", ("bin", "==", ("var", "k"), ("num", 0.0)), [("return", ("var", "L"))], None),
+            ("if", ("bin", "==", ("var", "k"), ("num", 1.0)), [("return", ("var", "M"))], None),
+            ("return", ("var", "N")),
+        ]
+        out.append(("fn", fname, ["k"], body))
+        out.append(("fn", "junk", ["n"], [("let", "acc", ("list", [])),
+                                          ("for", "i", ("call", ("prop", ("var", "n"), "times"), []),
+                                           [("expr", ("call", ("prop", ("var", "acc"), "push"), [("list", [("var", "i"), ("str", "pad")])]))]),
+                                          ("return", ("call", ("prop", ("var", "acc"), "len"), []))]))
+        rounds = self.i(2, 6)
+        for r in range(rounds):
+            k = self.i(0, 2)
+            cv, ov = self.fresh("C"), self.fresh("o")
+            out.append(("let", cv, ("call", ("var", fname), [("num", float(k))])))
+            out.append(("let", ov, ("call", ("var", cv), [self.expr("num", 1)])))
+            for _ in range(self.i(1, 3)):
+                c = self.i(0, 3)
+                if c == 0:
+                    out.append(("print", ("call", ("var", "site1"), [("var", ov)])))
+                elif c == 1:
+                    out.append(("print", ("call", ("var", "site3"), [("var", ov)])))
+                elif c == 2:
+                    out.append(("print", ("call", ("var", "site4"), [("var", ov), self.expr("num", 1)])))
+                else:
+                    out.append(("print", ("call", ("var", "site5"), [("var", ov)])))
+            # drop the class and its instance, make garbage so a collection can reuse the addresses
+            out.append(("expr", ("assign", ("var", cv), ("nil",))))
+            out.append(("expr", ("assign", ("var", ov), ("nil",))))
+            out.append(("print", ("call", ("var", "junk"), [("num", float(self.i(1, 40)))])))
+        return out
+
+    def scenario(self):
+        out = GK.scenario(self)
+        if self.chance(70):
+            out.extend(self.factory())
+        return out
+
+
+def cache_program(cfg=None):
+    @st.composite
+    def strat(draw):
+        g = GI(draw, cfg)
+        return g.scenario()
+    return strat()
+
+
 # ======================================================================================
 # exception profile (C04)
 # ======================================================================================
